@@ -574,6 +574,10 @@ func runC20(r *Run, rng *Rng, replay string) {
 	c20deepen3(r, rng, thorough)
 	// 11. references inside option structs, remaining cell/range taking functions
 	c20deepen4(r, rng, thorough)
+	// 12. SetConditionalFormat's reference grammar, StreamWriter entry points
+	c20deepen5(r, rng, thorough)
+	// 13. lookup paths on Files with arbitrary injected merged-cell lists
+	c20deepen6(r, rng, thorough)
 	for _, s := range r.opsSample(10) {
 		r.Sample(s)
 	}
